@@ -61,10 +61,18 @@ _CTX = None
 def _run_one(i):
     ob = _OBLIGS[i]
     t0 = time.time()
+    from . import libmodels as lm
+    del lm.LIB_PRE_UNMET[:]
     try:
         v = ob.run()
         if not isinstance(v, be.Verdict):
             raise TypeError(f"obligation {ob.id} returned {type(v).__name__}")
+        if lm.LIB_PRE_UNMET and v.status == be.PROVED and ob.expect == be.PROVED:
+            # the code under contract calls a library function whose precondition the code does not establish: the
+            # facts assumed about that call (and hence this proof) are void
+            worst = "refuted" if any(s_ == "refuted" for s_, _ in lm.LIB_PRE_UNMET) else "unknown"
+            text = "; ".join(sorted({t_ for _, t_ in lm.LIB_PRE_UNMET}))
+            v = be.Verdict(be.REFUTED if worst == "refuted" else be.UNKNOWN, "PRE", witness=({} if worst == "refuted" else None), detail="library precondition not established on a path of the code under contract: " + text, seconds=time.time() - t0)
     except sx.OutOfSubset as e:
         v = be.Verdict(be.UNKNOWN, "SYMEX", detail=f"OUT-OF-SUBSET: {e}", seconds=time.time() - t0)
         v.out_of_subset = True
